@@ -353,6 +353,15 @@ func (s *scriptModState) RewriteSender(ctx context.Context, from string) (string
 func (s *scriptModState) RewriteRcpt(ctx context.Context, to string) ([]string, error) {
 	err := s.r.fault("mod:"+s.m.ID, "rcpt", to)
 	s.r.add(MonEvent{Tgt: "mod:" + s.m.ID, Op: "mod:rcpt", Arg: to, Err: es(err)})
+	// Faults["mod:<id>/rewrite"] set: recipients are rewritten to an alias in the same domain (same routing)
+	s.r.mu.Lock()
+	rewrite := s.r.Faults["mod:"+s.m.ID+"/rewrite"] != ""
+	s.r.mu.Unlock()
+	if rewrite && err == nil {
+		if at := strings.LastIndexByte(to, '@'); at > 0 {
+			return []string{to[:at] + "+alias" + to[at:]}, nil
+		}
+	}
 	return []string{to}, err
 }
 func (s *scriptModState) RewriteBody(ctx context.Context, h *textproto.Header, b buffer.Buffer) error {
